@@ -144,6 +144,33 @@ theorem complete_reply (k : ClientKind) (fl : Flusher) (hooks : Bool) (hfl : ¬ 
     simp only [Resp.bytes]
     rw [(C02.roundtrip_rtu resp hwf []).2.2]
 
+/-- **a serial port that reports its own read timeout as `(0, io.EOF)`**: such reads are empty timed-out reads. The
+serial client returns the complete reply for every fragmentation that also contains them (before, inside and after the
+reply), with any flusher that does not fail -/
+theorem complete_reply_serial_eof (fl : Flusher) (hooks : Bool) (hfl : fl ≠ .failing)
+    (reqBytes : Bytes) (tid : UInt16) (resp : Resp) (hwf : Resp.WF9 resp)
+    (hmax : (resp.bytes .rtu tid).length ≤ ClientKind.serial.maxLen)
+    (script : List Ev) (hs : FragSerial (resp.bytes .rtu tid) script) :
+    Returns .serial tid resp
+      (doExchange .serial fl hooks reqBytes (resp.bytes .rtu tid).length false script).1 := by
+  have hne : resp.bytes .rtu tid ≠ [] := by
+    simp [Resp.bytes, Resp.bytesRTU, withCrc, crcTrailer]
+  have hfr : ClientKind.serial.framing = .rtu := rfl
+  have hnx := no_exception_prefix .serial tid resp hwf
+  rw [hfr] at hnx
+  obtain ⟨log', hrl⟩ := readLoop_complete_serial fl _ hmax hnx _ script hs [] [] (by simp) hne
+  unfold doExchange Returns
+  simp only [Bool.false_eq_true, if_false, hrl]
+  have hw : withFlush .serial fl (.frame (resp.bytes .rtu tid)) = .frame (resp.bytes .rtu tid) := by
+    unfold withFlush; rw [if_neg (fun h => hfl h.2)]
+  rw [hw]
+  simp only [hfr, Resp.bytes]
+  rw [(C02.roundtrip_rtu resp hwf []).2.2]
+
+/-- non-vacuity: a reply cut in two with empty end-of-stream reads before it and between its parts -/
+example : FragSerial [1, 3, 2, 0, 7, 0xF9, 0x86] [.eof [], .data [1, 3, 2], .eof [], .timeout, .data [0, 7, 0xF9, 0x86], .eof []] :=
+  .eofEmpty (.data [1, 3, 2] (by simp) (.eofEmpty (.timeout (.data [0, 7, 0xF9, 0x86] (by simp) (.done _)))))
+
 /-- the statement for requests: every request type whose announced length is right, every conforming reply -/
 theorem C07_partial (k : ClientKind) (fl : Flusher) (hooks : Bool) (hfl : ¬ (k = .serial ∧ fl = .failing))
     (tid : UInt16) (r : Req) (resp : Resp) (hrep : ReplyTo r resp) (hok : LengthOK k.framing r)
